@@ -39,6 +39,7 @@ def main(prop: str, tier: str, seed: int, replay: Optional[str], ncases: Optiona
         return _main(prop, mod, modname, tier, seed, replay, ncases, no_prove, workdir, t0)
     finally:
         shutil.rmtree(workdir, ignore_errors=True)
+        shutil.rmtree("/tmp" + workdir, ignore_errors=True)     # restore_cpgraph extracts under /tmp/<absolute path>
         # critical-path restore extracts under /tmp (hard-coded in the code under test)
         for p in glob.glob("/tmp/hta_verif_*"):
             if p != workdir and time.time() - os.path.getmtime(p) > 6 * 3600:
